@@ -92,6 +92,14 @@ FIXED = [
     ('self-import', '<xs:schema xmlns:xs="http://www.w3.org/2001/XMLSchema" targetNamespace="urn:a" xmlns:a="urn:a" elementFormDefault="qualified"><xs:import namespace="urn:a" schemaLocation="main.xsd"/><xs:complexType name="T"><xs:sequence><xs:element name="x" type="xs:string"/></xs:sequence></xs:complexType></xs:schema>'),
     ('self-extending-type', '<xs:schema xmlns:xs="http://www.w3.org/2001/XMLSchema" targetNamespace="urn:a" xmlns:a="urn:a" elementFormDefault="qualified"><xs:complexType name="T"><xs:complexContent><xs:extension base="a:T"><xs:sequence><xs:element name="x" type="xs:string"/></xs:sequence></xs:extension></xs:complexContent></xs:complexType></xs:schema>'),
     ('self-ref-element', '<xs:schema xmlns:xs="http://www.w3.org/2001/XMLSchema" targetNamespace="urn:a" xmlns:a="urn:a" elementFormDefault="qualified"><xs:element name="E"><xs:complexType><xs:sequence><xs:element ref="a:E" minOccurs="0"/></xs:sequence></xs:complexType></xs:element></xs:schema>'),
+    ('mutual-extension-2', '<xs:schema xmlns:xs="http://www.w3.org/2001/XMLSchema" targetNamespace="urn:a" xmlns:a="urn:a" elementFormDefault="qualified"><xs:complexType name="Alpha"><xs:complexContent><xs:extension base="a:Beta"><xs:sequence><xs:element name="fAlpha" type="xs:string"/></xs:sequence></xs:extension></xs:complexContent></xs:complexType><xs:complexType name="Beta"><xs:complexContent><xs:extension base="a:Alpha"><xs:sequence><xs:element name="fBeta" type="xs:string"/></xs:sequence></xs:extension></xs:complexContent></xs:complexType></xs:schema>'),
+    ('mutual-extension-3', '<xs:schema xmlns:xs="http://www.w3.org/2001/XMLSchema" targetNamespace="urn:a" xmlns:a="urn:a" elementFormDefault="qualified"><xs:complexType name="Alpha"><xs:complexContent><xs:extension base="a:Beta"><xs:sequence><xs:element name="fAlpha" type="xs:string"/></xs:sequence></xs:extension></xs:complexContent></xs:complexType><xs:complexType name="Beta"><xs:complexContent><xs:extension base="a:Gamma"><xs:sequence><xs:element name="fBeta" type="xs:string"/></xs:sequence></xs:extension></xs:complexContent></xs:complexType><xs:complexType name="Gamma"><xs:complexContent><xs:extension base="a:Alpha"><xs:sequence><xs:element name="fGamma" type="xs:string"/></xs:sequence></xs:extension></xs:complexContent></xs:complexType></xs:schema>'),
+    ('mutual-element-refs', '<xs:schema xmlns:xs="http://www.w3.org/2001/XMLSchema" targetNamespace="urn:a" xmlns:a="urn:a" elementFormDefault="qualified"><xs:element name="Ping"><xs:complexType><xs:sequence><xs:element ref="a:Pong" minOccurs="0"/></xs:sequence></xs:complexType></xs:element><xs:element name="Pong"><xs:complexType><xs:sequence><xs:element ref="a:Ping" minOccurs="0"/></xs:sequence></xs:complexType></xs:element></xs:schema>'),
+    ('element-ref-cycle-3', '<xs:schema xmlns:xs="http://www.w3.org/2001/XMLSchema" targetNamespace="urn:a" xmlns:a="urn:a" elementFormDefault="qualified"><xs:element name="One"><xs:complexType><xs:sequence><xs:element ref="a:Two" minOccurs="0"/></xs:sequence></xs:complexType></xs:element><xs:element name="Two"><xs:complexType><xs:sequence><xs:element ref="a:Three" minOccurs="0"/></xs:sequence></xs:complexType></xs:element><xs:element name="Three"><xs:complexType><xs:sequence><xs:element ref="a:One" minOccurs="0"/></xs:sequence></xs:complexType></xs:element></xs:schema>'),
+    ('extension-of-missing-base', '<xs:schema xmlns:xs="http://www.w3.org/2001/XMLSchema" targetNamespace="urn:a" xmlns:a="urn:a" elementFormDefault="qualified"><xs:complexType name="Alpha"><xs:complexContent><xs:extension base="a:Nowhere"><xs:sequence><xs:element name="fAlpha" type="xs:string"/></xs:sequence></xs:extension></xs:complexContent></xs:complexType></xs:schema>'),
+    ('empty-schema', '<xs:schema xmlns:xs="http://www.w3.org/2001/XMLSchema" targetNamespace="urn:a" xmlns:a="urn:a" elementFormDefault="qualified"></xs:schema>'),
+    ('schema-without-components-but-import', '<xs:schema xmlns:xs="http://www.w3.org/2001/XMLSchema" targetNamespace="urn:a" xmlns:a="urn:a" elementFormDefault="qualified"><xs:import namespace="urn:b"/></xs:schema>'),
+    ('deep-nested-sequences', '<xs:schema xmlns:xs="http://www.w3.org/2001/XMLSchema" targetNamespace="urn:a" xmlns:a="urn:a" elementFormDefault="qualified"><xs:complexType name="Deep"><xs:sequence><xs:sequence><xs:sequence><xs:sequence><xs:sequence><xs:sequence><xs:sequence><xs:sequence><xs:sequence><xs:sequence><xs:sequence><xs:sequence><xs:sequence><xs:sequence><xs:sequence><xs:sequence><xs:sequence><xs:sequence><xs:sequence><xs:sequence><xs:sequence><xs:sequence><xs:sequence><xs:sequence><xs:sequence><xs:sequence><xs:sequence><xs:sequence><xs:sequence><xs:sequence><xs:sequence><xs:sequence><xs:sequence><xs:sequence><xs:sequence><xs:sequence><xs:sequence><xs:sequence><xs:sequence><xs:sequence><xs:sequence><xs:sequence><xs:sequence><xs:sequence><xs:sequence><xs:sequence><xs:sequence><xs:sequence><xs:sequence><xs:sequence><xs:sequence><xs:sequence><xs:sequence><xs:sequence><xs:sequence><xs:sequence><xs:sequence><xs:sequence><xs:sequence><xs:sequence><xs:sequence><xs:sequence><xs:sequence><xs:sequence><xs:sequence><xs:sequence><xs:sequence><xs:sequence><xs:sequence><xs:sequence><xs:sequence><xs:sequence><xs:sequence><xs:sequence><xs:sequence><xs:sequence><xs:sequence><xs:sequence><xs:sequence><xs:sequence><xs:sequence><xs:sequence><xs:sequence><xs:sequence><xs:sequence><xs:sequence><xs:sequence><xs:sequence><xs:sequence><xs:sequence><xs:sequence><xs:sequence><xs:sequence><xs:sequence><xs:sequence><xs:sequence><xs:sequence><xs:sequence><xs:sequence><xs:sequence><xs:sequence><xs:sequence><xs:sequence><xs:sequence><xs:sequence><xs:sequence><xs:sequence><xs:sequence><xs:sequence><xs:sequence><xs:sequence><xs:sequence><xs:sequence><xs:sequence><xs:sequence><xs:sequence><xs:sequence><xs:sequence><xs:sequence><xs:sequence><xs:sequence><xs:sequence><xs:sequence><xs:sequence><xs:sequence><xs:sequence><xs:sequence><xs:sequence><xs:sequence><xs:sequence><xs:sequence><xs:sequence><xs:sequence><xs:sequence><xs:sequence><xs:sequence><xs:sequence><xs:sequence><xs:sequence><xs:sequence><xs:sequence><xs:sequence><xs:sequence><xs:sequence><xs:sequence><xs:sequence><xs:sequence><xs:sequence><xs:sequence><xs:sequence><xs:sequence><xs:sequence><xs:sequence><xs:sequence><xs:sequence><xs:sequence><xs:sequence><xs:sequence><xs:sequence><xs:sequence><xs:sequence><xs:sequence><xs:sequence><xs:sequence><xs:sequence><xs:sequence><xs:sequence><xs:sequence><xs:sequence><xs:sequence><xs:sequence><xs:sequence><xs:sequence><xs:sequence><xs:sequence><xs:sequence><xs:sequence><xs:sequence><xs:sequence><xs:sequence><xs:sequence><xs:sequence><xs:sequence><xs:sequence><xs:sequence><xs:sequence><xs:sequence><xs:sequence><xs:sequence><xs:sequence><xs:sequence><xs:sequence><xs:sequence><xs:sequence><xs:sequence><xs:sequence><xs:sequence><xs:sequence><xs:sequence><xs:sequence><xs:element name="x" type="xs:string"/></xs:sequence></xs:sequence></xs:sequence></xs:sequence></xs:sequence></xs:sequence></xs:sequence></xs:sequence></xs:sequence></xs:sequence></xs:sequence></xs:sequence></xs:sequence></xs:sequence></xs:sequence></xs:sequence></xs:sequence></xs:sequence></xs:sequence></xs:sequence></xs:sequence></xs:sequence></xs:sequence></xs:sequence></xs:sequence></xs:sequence></xs:sequence></xs:sequence></xs:sequence></xs:sequence></xs:sequence></xs:sequence></xs:sequence></xs:sequence></xs:sequence></xs:sequence></xs:sequence></xs:sequence></xs:sequence></xs:sequence></xs:sequence></xs:sequence></xs:sequence></xs:sequence></xs:sequence></xs:sequence></xs:sequence></xs:sequence></xs:sequence></xs:sequence></xs:sequence></xs:sequence></xs:sequence></xs:sequence></xs:sequence></xs:sequence></xs:sequence></xs:sequence></xs:sequence></xs:sequence></xs:sequence></xs:sequence></xs:sequence></xs:sequence></xs:sequence></xs:sequence></xs:sequence></xs:sequence></xs:sequence></xs:sequence></xs:sequence></xs:sequence></xs:sequence></xs:sequence></xs:sequence></xs:sequence></xs:sequence></xs:sequence></xs:sequence></xs:sequence></xs:sequence></xs:sequence></xs:sequence></xs:sequence></xs:sequence></xs:sequence></xs:sequence></xs:sequence></xs:sequence></xs:sequence></xs:sequence></xs:sequence></xs:sequence></xs:sequence></xs:sequence></xs:sequence></xs:sequence></xs:sequence></xs:sequence></xs:sequence></xs:sequence></xs:sequence></xs:sequence></xs:sequence></xs:sequence></xs:sequence></xs:sequence></xs:sequence></xs:sequence></xs:sequence></xs:sequence></xs:sequence></xs:sequence></xs:sequence></xs:sequence></xs:sequence></xs:sequence></xs:sequence></xs:sequence></xs:sequence></xs:sequence></xs:sequence></xs:sequence></xs:sequence></xs:sequence></xs:sequence></xs:sequence></xs:sequence></xs:sequence></xs:sequence></xs:sequence></xs:sequence></xs:sequence></xs:sequence></xs:sequence></xs:sequence></xs:sequence></xs:sequence></xs:sequence></xs:sequence></xs:sequence></xs:sequence></xs:sequence></xs:sequence></xs:sequence></xs:sequence></xs:sequence></xs:sequence></xs:sequence></xs:sequence></xs:sequence></xs:sequence></xs:sequence></xs:sequence></xs:sequence></xs:sequence></xs:sequence></xs:sequence></xs:sequence></xs:sequence></xs:sequence></xs:sequence></xs:sequence></xs:sequence></xs:sequence></xs:sequence></xs:sequence></xs:sequence></xs:sequence></xs:sequence></xs:sequence></xs:sequence></xs:sequence></xs:sequence></xs:sequence></xs:sequence></xs:sequence></xs:sequence></xs:sequence></xs:sequence></xs:sequence></xs:sequence></xs:sequence></xs:sequence></xs:sequence></xs:sequence></xs:sequence></xs:sequence></xs:sequence></xs:sequence></xs:sequence></xs:sequence></xs:sequence></xs:sequence></xs:sequence></xs:sequence></xs:sequence></xs:sequence></xs:sequence></xs:sequence></xs:complexType></xs:schema>'),
     ('enumeration-without-value', '<xs:schema xmlns:xs="http://www.w3.org/2001/XMLSchema" targetNamespace="urn:a"><xs:simpleType name="T"><xs:restriction base="xs:string"><xs:enumeration/></xs:restriction></xs:simpleType></xs:schema>'),
 ]
 
